@@ -191,6 +191,16 @@ static int do_act(const char *a)
 {
   long long p[4] = {0, 0, 0, 0};
   if(a[0] == '-' && a[1] == 0) return 1;
+  if(a[0] == 't' && (a[1] == 'a' || a[1] == 'u')) {
+    /* ta<msec>:<fl>:<cb> = tickit_watch_timer_after_msec, tu<usec>:<fl>:<cb> = tickit_watch_timer_after_tv */
+    sscanf(a + 2, "%lld:%lld:%lld", &p[0], &p[1], &p[2]);
+    long long usec = a[1] == 'a' ? p[0] * 1000 : p[0];
+    struct W *w = neww(K_TIMER, p[2], vclock + usec);
+    if(!w) return 1;
+    if(a[1] == 'a') w->watch = tickit_watch_timer_after_msec(T, (int)p[0], p[1], on_ev, w);
+    else { struct timeval tv = { .tv_sec = usec / 1000000, .tv_usec = usec % 1000000 }; w->watch = tickit_watch_timer_after_tv(T, &tv, p[1], on_ev, w); }
+    return 1;
+  }
   if(a[0] == 't') {
     sscanf(a + 1, "%lld:%lld:%lld", &p[0], &p[1], &p[2]);
     long long at = vclock + p[0];
